@@ -406,6 +406,11 @@ var _ = pr.AutoF
 //@   modifies anything
 //@   unclaimed call-*-pre* "preconditions of layout helpers on boxes under layout (resolved margins, non-nil context): established by earlier layout steps, not tracked through the box tree"
 //@   assert after collapsingThrough#2: lastInFlowChild == nil && (box.Height == pr.AutoF || box.Height == pr.Float(0)) && box.MinHeight == pr.Float(0) && box.BorderTopWidth == pr.Float(0) && box.PaddingTop == pr.Float(0) && box.BorderBottomWidth == pr.Float(0) && box.PaddingBottom == pr.Float(0)
+// ... and when the box is NOT collapsed through, its top margin (collapsed with what adjoins it) has been spent
+// above the box: the list of margins that adjoin the bottom of the box starts empty again (CSS 2.1 §8.3.1: a
+// box's top and bottom margins adjoin only if it is collapsed through); likewise below a box of given height
+//@   assert after adjoiningMargins#5: lastInFlowChild == nil && !collapsingThrough
+//@   assert after adjoiningMargins#6: lastInFlowChild != nil && box.Height != pr.AutoF
 
 // ---------------------------------------------------------------------------
 // bounded stand-in (C12): orphans / widows. breakLine is called when a line overflows the page; the
